@@ -8,15 +8,26 @@
 (* not well formed, is not a behaviour of the specification.               *)
 (*   WellFormed(d): registered error code other than internal_error, line  *)
 (*   inside the file, column inside that line, non-empty message.          *)
+(* The position part of WellFormed is stated on the POSITION MODEL below:  *)
+(* a module is a sequence of physical lines, a diagnostic is attached to   *)
+(* an AST node, ImplShow transcribes what BaseNodeVisitor.show_error does  *)
+(* with the node (node_visitor.py:654-735), RefWellFormedPos / RefContextOK *)
+(* say what the property demands of the result.                            *)
 (*                                                                         *)
-(* Input side: a generator of (deliberately odd / ill-typed) modules: a    *)
-(* module is a sequence of fragments, each a fragment kind applied to      *)
-(* operand kinds; TLC enumerates the product, the harness renders every    *)
-(* fragment to source text (harness/drivers/c12.py FRAGMENTS).             *)
+(* Input side: three staged generators                                     *)
+(*   G*  modules = sequences of fragments (fragment kind x operand kinds x *)
+(*       scope nesting); harness/c12_fragments.py renders them;            *)
+(*   P*  the position model itself: small abstract files x nodes (checked  *)
+(*       exhaustively against the Ref operators, PosProperty);             *)
+(*   Y*  layouts: where in a real module the diagnosed node sits (site,    *)
+(*       padding in front of it, lines around it, line terminators);       *)
+(*       harness/drivers/c12.py renders them.                              *)
 (***************************************************************************)
-EXTENDS Naturals, Sequences, FiniteSets, TLC
+EXTENDS Naturals, Integers, Sequences, FiniteSets, TLC
 
-CONSTANTS MaxFragments
+CONSTANTS MaxFragments,    \* fragments per module
+          MaxDepth,        \* scope nesting depth of a fragment (1 = a plain function)
+          FnScopes         \* the kinds of function scope a fragment may sit in ("def", "async")
 
 Operands == {"int", "str", "none", "list", "dict", "tuple", "func", "cls", "module", "undefined", "float", "bytes", "set"}
 
@@ -28,38 +39,242 @@ FragKinds ==
      fstring |-> 1, percent_format |-> 1, walrus |-> 1, match_stmt |-> 1, async_fn |-> 1, with_stmt |-> 1,
      for_loop |-> 1, unpack |-> 1, augassign |-> 2, delete |-> 1, global_stmt |-> 0, try_stmt |-> 1,
      return_value |-> 1, yield_stmt |-> 1, assert_stmt |-> 1, ifexp |-> 1, boolop |-> 2, slice |-> 1,
-     dict_display |-> 2, set_display |-> 1, nested_def |-> 1, typevar_fn |-> 1, overload_fn |-> 1, dataclass_cls |-> 1]
+     dict_display |-> 2, set_display |-> 1, nested_def |-> 1, typevar_fn |-> 1, overload_fn |-> 1, dataclass_cls |-> 1,
+     \* second generation: class definitions
+     class_deco |-> 1, class_meta_kw |-> 1, class_slots |-> 1, class_property |-> 1, namedtuple_cls |-> 1, typeddict_cls |-> 1,
+     enum_cls |-> 1, protocol_cls |-> 1, generic_cls |-> 1, pep695 |-> 1, dataclass_opts |-> 1, dunder_cls |-> 1,
+     inherit_odd |-> 1, overload_odd |-> 1,
+     \* functions, async, generators, scopes
+     async_gen |-> 1, async_odd |-> 1, generator_odd |-> 1, special_returns |-> 1, lambda_defaults |-> 1, nested_scopes |-> 1,
+     global_nonlocal |-> 1,
+     \* expressions and statements
+     comp_all |-> 1, star_expr |-> 1, fstring_nested |-> 1, chained_cmp |-> 1, operators_odd |-> 1, format_odd |-> 1,
+     del_forms |-> 1, augassign_targets |-> 1, with_multi |-> 1, try_star |-> 1, match_all |-> 1, control_odd |-> 1, narrow_odd |-> 1,
+     \* typing
+     odd_annotations |-> 1, string_annotation_errors |-> 1, typing_calls |-> 1, noncallable_deco |-> 1, builtin_arity |-> 1,
+     helper_arity |-> 1, callback_arg |-> 1, return_classes |-> 1, return_metaclass |-> 0,
+     \* constructs confined to a kind of their own because the unchanged tree is known to deviate on them (Dev_* below)
+     match_value_dotted |-> 0, recursive_str_alias |-> 0, pure_call_raises |-> 1]
 
 Kinds == DOMAIN FragKinds
 
-Fragment(k, a, b) == [kind |-> k, a |-> a, b |-> b]
-FragmentsOf(k) ==
-    CASE FragKinds[k] = 0 -> {Fragment(k, "none", "none")}
-      [] FragKinds[k] = 1 -> {Fragment(k, a, "none") : a \in Operands}
-      [] FragKinds[k] = 2 -> {Fragment(k, a, b) : a \in Operands, b \in {"int", "str", "none", "list", "undefined"}}
+\* scope nestings: 1..MaxDepth scopes, the innermost one a function (nothing of a fragment runs at import)
+Scopes == {"def", "async", "class"}
+WrapsOfLen(n) == {w \in [1..n -> Scopes] : w[n] \in FnScopes}
+Wraps == UNION {WrapsOfLen(n) : n \in 1..MaxDepth}
 
-VARIABLES prog, stage
-gvars == <<prog, stage>>
+Fragment(k, a, b, w) == [kind |-> k, a |-> a, b |-> b, w |-> w]
+FragmentsOf(k, w) ==
+    CASE FragKinds[k] = 0 -> {Fragment(k, "none", "none", w)}
+      [] FragKinds[k] = 1 -> {Fragment(k, a, "none", w) : a \in Operands}
+      [] FragKinds[k] = 2 -> {Fragment(k, a, b, w) : a \in Operands, b \in {"int", "str", "none", "list", "undefined"}}
 
-GInit == prog = << >> /\ stage = "gen"
-AddFragment == stage = "gen" /\ Len(prog) < MaxFragments /\ \E k \in Kinds : \E f \in FragmentsOf(k) : prog' = Append(prog, f) /\ UNCHANGED stage
-Finish == stage = "gen" /\ Len(prog) >= 1 /\ stage' = "done" /\ UNCHANGED prog
-GNext == AddFragment \/ Finish
+\* staged: one component of a fragment per step (kind, operands, scope nesting), so that a simulation step has few successors
+VARIABLES prog, stage, cur
+gvars == <<prog, stage, cur>>
+NoFragment == Fragment("none", "none", "none", << >>)
+
+GInit == prog = << >> /\ stage = "gen" /\ cur = NoFragment
+PickKind == stage = "gen" /\ Len(prog) < MaxFragments /\ \E k \in Kinds : cur' = Fragment(k, "none", "none", << >>) /\ stage' = "ops" /\ UNCHANGED prog
+PickOperands == stage = "ops" /\ \E f \in FragmentsOf(cur.kind, << >>) : cur' = f /\ stage' = "wrap" /\ UNCHANGED prog
+PickWrap == stage = "wrap" /\ \E w \in Wraps : prog' = Append(prog, [cur EXCEPT !.w = w]) /\ stage' = "gen" /\ cur' = NoFragment
+Finish == stage = "gen" /\ Len(prog) >= 1 /\ stage' = "done" /\ UNCHANGED <<prog, cur>>
+GNext == PickKind \/ PickOperands \/ PickWrap \/ Finish
+
+(***************************************************************************)
+(* POSITION MODEL                                                          *)
+(*                                                                         *)
+(* A module is a sequence of physical lines as CPython's tokenizer counts  *)
+(* them (terminated by LF, CRLF or CR -- language reference 2.1.2).        *)
+(*   line == [t, c, b, p]                                                  *)
+(*     t = the text of the line without terminator (only compared for      *)
+(*         equality: a name here, an injective text id in recorded traces) *)
+(*     c = its length in code points, b = the length of its UTF-8 encoding *)
+(*     p = << >> if str.splitlines() leaves the line in one piece, else    *)
+(*         the texts of the pieces it cuts the line into (splitlines also  *)
+(*         breaks at FF, VT, FS, GS, RS, NEL, LS, PS, which may legally    *)
+(*         occur inside a Python line)                                     *)
+(* A node (ast.AST position attributes; col / end_col are UTF-8 byte       *)
+(* offsets as CPython reports them):                                       *)
+(*   node == [haspos, lineno, col, end_lineno, end_col, fwd]               *)
+(*     fwd = TRUE for a node of a string annotation, which pyanalyze parses *)
+(*     separately (annotations.py:671): its position is relative to the    *)
+(*     string, not to the file.                                            *)
+(***************************************************************************)
+Max2(a, b) == IF a >= b THEN a ELSE b
+Min2(a, b) == IF a <= b THEN a ELSE b
+
+Pieces(line) == IF line.p = << >> THEN <<line.t>> ELSE line.p
+RECURSIVE ImplLinesFrom(_, _)
+ImplLinesFrom(file, i) == IF i > Len(file) THEN << >> ELSE Pieces(file[i]) \o ImplLinesFrom(file, i + 1)
+\* node_visitor.py:237  _lines(): [line + "\n" for line in self.contents.splitlines()]
+ImplLines(file) == ImplLinesFrom(file, 1)
+
+NoCtx == << >>
+CtxEntry(n, t) == [n |-> n, t |-> t]
+\* node_visitor.py:723-735: lines max(lineno - 3, 1) .. min(lineno + 3, len(lines)) of _lines(), each under its number,
+\* a caret line after line `lineno` at column 6 + col_offset
+ImplContext(file, lineno, col) ==
+    LET lines == ImplLines(file)
+        lo == Max2(lineno - 3, 1)
+        hi == Min2(lineno + 3 + 1, Len(lines) + 1)
+    IN [ctx |-> [i \in 1..Max2(hi - lo, 0) |-> CtxEntry(lo + i - 1, lines[lo + i - 1])],
+        caret |-> IF lineno >= lo /\ lineno < hi THEN 6 + col ELSE -1]
+
+\* show_error (node_visitor.py:654-735), one arm per path:
+ImplShow(file, node, obey) ==
+    IF ~node.haspos
+    THEN \* :654-658 node without lineno / col_offset: the failure carries neither, no context is rendered
+         [out |-> "diag", haspos |-> FALSE, lineno |-> 0, col |-> 0, ctx |-> NoCtx, caret |-> -1]
+    ELSE IF obey /\ node.lineno > Len(ImplLines(file))
+    THEN \* :683 this_line = lines[lineno - 1] raises IndexError (caught by the catch-all around the node visit)
+         [out |-> "raise", haspos |-> TRUE, lineno |-> node.lineno, col |-> node.col, ctx |-> NoCtx, caret |-> -1]
+    ELSE LET c == ImplContext(file, node.lineno, node.col)
+         IN [out |-> "diag", haspos |-> TRUE, lineno |-> node.lineno, col |-> node.col, ctx |-> c.ctx, caret |-> c.caret]
+
+(***************************************************************************)
+(* What the property demands (first principles; no reference to the Impl operators) *)
+(***************************************************************************)
+\* "a line number inside the file, a column inside that line"
+RefWellFormedPos(d, file) == d.haspos /\ d.lineno \in 1..Len(file) /\ d.col \in 0..file[d.lineno].c
+\* the rendered context is made of lines of the file, each under its own number, and shows the diagnosed line
+RefContextOK(d, file) ==
+    /\ \A i \in 1..Len(d.ctx) : d.ctx[i].n \in 1..Len(file) /\ d.ctx[i].t = file[d.ctx[i].n].t
+    /\ \E i \in 1..Len(d.ctx) : d.ctx[i].n = d.lineno
+
+(***************************************************************************)
+(* Known deviations of the unchanged tree (named classes; each covers      *)
+(* exactly what the deviating mechanism produces)                          *)
+(***************************************************************************)
+\* col_offset is a UTF-8 byte offset but is reported (and used for the caret) as a column of the str line: with
+\* non-ASCII text in front of the node the column lies beyond the end of the line
+Dev_ByteColumn(d, file) ==
+    /\ d.haspos /\ d.lineno \in 1..Len(file)
+    /\ d.col > file[d.lineno].c /\ d.col <= file[d.lineno].b
+\* _lines() cuts the contents with str.splitlines(), which also breaks at FF, VT, FS, GS, RS, NEL, LS, PS: after such a
+\* character every line number indexes the wrong piece, so the context shows pieces under foreign numbers
+BrokenBefore(file, n) == \E i \in 1..Min2(n, Len(file)) : file[i].p # << >>
+Dev_SplitPieces(d, file) ==
+    /\ d.haspos /\ d.lineno \in 1..Len(file)
+    /\ BrokenBefore(file, d.lineno + 3)
+    /\ d.ctx = ImplContext(file, d.lineno, d.col).ctx
+\* the node of a string annotation carries the position it has inside the string: the diagnostic lands on an unrelated
+\* line (possibly beyond its end, possibly beyond the end of the file) or, when the string has more lines than the file
+\* and inline ignore comments are obeyed, show_error raises IndexError
+Dev_ForwardRefPosition(node, r, file) ==
+    /\ node.fwd
+    /\ \/ r.out = "raise"
+       \/ r.out = "diag" /\ ~RefWellFormedPos(r, file)
+
+(***************************************************************************)
+(* P*: the position model checked on small abstract files                  *)
+(***************************************************************************)
+CONSTANTS PosMaxLines,     \* lines per abstract file
+          NodesHavePos,    \* TRUE: every diagnosed node has lineno / col_offset (what is observed on the real code)
+          DevOn            \* deviation classes of the position model that are taken into account
+\* line shapes: plain ASCII, non-ASCII (more bytes than characters), cut by splitlines, short
+LineName == <<"L1", "L2", "L3", "L4", "L5", "L6">>
+PieceA == <<"L1a", "L2a", "L3a", "L4a", "L5a", "L6a">>
+PieceB == <<"L1b", "L2b", "L3b", "L4b", "L5b", "L6b">>
+LineShape(i, s) ==
+    CASE s = "ascii"  -> [t |-> LineName[i], c |-> 8, b |-> 8,  p |-> << >>]
+      [] s = "wide"   -> [t |-> LineName[i], c |-> 8, b |-> 12, p |-> << >>]
+      [] s = "broken" -> [t |-> LineName[i], c |-> 8, b |-> 8,  p |-> <<PieceA[i], PieceB[i]>>]
+      [] s = "short"  -> [t |-> LineName[i], c |-> 2, b |-> 2,  p |-> << >>]
+Shapes == {"ascii", "wide", "broken", "short"}
+
+VARIABLES pfile, pnode, pobey, pstage
+pvars == <<pfile, pnode, pobey, pstage>>
+NoNode == [haspos |-> FALSE, lineno |-> 0, col |-> 0, end_lineno |-> 0, end_col |-> 0, fwd |-> FALSE]
+PInit == pfile = << >> /\ pnode = NoNode /\ pobey = TRUE /\ pstage = "lines"
+PAddLine == pstage = "lines" /\ Len(pfile) < PosMaxLines /\ \E s \in Shapes : pfile' = Append(pfile, LineShape(Len(pfile) + 1, s)) /\ UNCHANGED <<pnode, pobey, pstage>>
+PLinesDone == pstage = "lines" /\ Len(pfile) >= 1 /\ pstage' = "node" /\ UNCHANGED <<pfile, pnode, pobey>>
+\* nodes CPython can produce for this file: a node of the file starts on one of its lines at a byte offset inside that
+\* line; a node of a separately parsed string may claim any line / column
+PPickNode ==
+    /\ pstage = "node"
+    /\ \E fwd \in BOOLEAN, ln \in 1..(PosMaxLines + 2), col \in {0, 2, 5, 8, 10, 12, 14}, has \in (IF NodesHavePos THEN {TRUE} ELSE BOOLEAN), ob \in BOOLEAN :
+          /\ fwd \/ (ln <= Len(pfile) /\ col <= pfile[ln].b)
+          /\ pnode' = [haspos |-> has, lineno |-> ln, col |-> col, end_lineno |-> ln, end_col |-> col + 1, fwd |-> fwd]
+          /\ pobey' = ob
+    /\ pstage' = "done" /\ UNCHANGED pfile
+PNext == PAddLine \/ PLinesDone \/ PPickNode
+
+PosHolds(file, node, obey) ==
+    LET r == ImplShow(file, node, obey)
+    IN r.out = "diag" /\ RefWellFormedPos(r, file) /\ RefContextOK(r, file)
+\* DevOn: the deviation classes taken into account (all of them in the real check; the sensitivity cfgs drop one class each
+\* and must then be violated)
+PosDeviates(file, node, obey) ==
+    LET r == ImplShow(file, node, obey)
+    IN \/ "fwd" \in DevOn /\ Dev_ForwardRefPosition(node, r, file)
+       \/ "byte" \in DevOn /\ ~node.fwd /\ r.out = "diag" /\ Dev_ByteColumn(r, file)
+       \/ "split" \in DevOn /\ r.out = "diag" /\ RefWellFormedPos(r, file) /\ Dev_SplitPieces(r, file)
+PosProperty == pstage = "done" => PosHolds(pfile, pnode, pobey) \/ PosDeviates(pfile, pnode, pobey)
+PosStrict == pstage = "done" => PosHolds(pfile, pnode, pobey)
+
+(***************************************************************************)
+(* Y*: layouts of real modules (rendered by the driver)                    *)
+(*   site   where the diagnosed node sits                                  *)
+(*   pad    what stands in front of it on its line (inside a string        *)
+(*          literal): nothing, 2-/3-/4-byte characters, many of them, a    *)
+(*          TAB, or a character at which only str.splitlines() breaks     *)
+(*   before / after  number of filler lines around the site (0 before =    *)
+(*          the site starts on line 1; 0 after + no trailing newline = the *)
+(*          diagnostic is on the unterminated last line)                   *)
+(*   filler what the filler lines contain; nl = the line terminator        *)
+(***************************************************************************)
+CONSTANTS YSites, YPads, YBefore, YAfter, YFillers, YNewlines, YTrail
+AllSites == {"oneline", "body", "continuation", "mlcall", "decorator", "fstring", "fstring_ml", "fstring_spec", "classbody",
+             "nesteddef", "lambda_default", "comprehension", "strannot", "strannot_esc", "strannot_wide", "strannot_ml"}
+AllPads == {"none", "u2", "u2x20", "u3", "u4", "tab", "ff", "vt", "fs", "nel", "ls", "ps"}
+AllFillers == {"plain", "wide", "ff", "ls", "nel"}
+AllNewlines == {"lf", "crlf", "cr"}
+
+VARIABLES lay, ystage
+yvars == <<lay, ystage>>
+YInit == lay = [site |-> "none", pad |-> "none", before |-> 0, after |-> 0, filler |-> "plain", nl |-> "lf", trail |-> TRUE] /\ ystage = "site"
+YPickSite == ystage = "site" /\ \E s \in YSites : lay' = [lay EXCEPT !.site = s] /\ ystage' = "pad"
+YPickPad == ystage = "pad" /\ \E x \in YPads : lay' = [lay EXCEPT !.pad = x] /\ ystage' = "around"
+\* (a missing final terminator only matters when the site is what the file ends with)
+YPickAround == ystage = "around" /\ \E bf \in YBefore, af \in YAfter, tr \in YTrail : (tr \/ af = 0) /\ lay' = [lay EXCEPT !.before = bf, !.after = af, !.trail = tr] /\ ystage' = "filler"
+YPickFiller == ystage = "filler" /\ \E f \in YFillers, n \in YNewlines : lay' = [lay EXCEPT !.filler = f, !.nl = n] /\ ystage' = "done"
+YNext == YPickSite \/ YPickPad \/ YPickAround \/ YPickFiller
 
 (***************************************************************************)
 (* The output automaton                                                    *)
 (***************************************************************************)
-WellFormed(d, nlines, linelens, codes) ==
+\* d = [code, haspos, lineno, col, msglen, ...]; file = the position model's lines; codes = registered error codes
+WellFormed(d, file, codes) ==
     /\ d.code \in codes /\ d.code # "internal_error"
-    /\ d.lineno \in 1..nlines
-    /\ d.col \in 0..linelens[d.lineno]
+    /\ RefWellFormedPos(d, file)
     /\ d.msglen > 0
 
 VARIABLES life, ndiags
 lvars == <<life, ndiags>>
 LInit == life = "Start" /\ ndiags = 0
-Diag(d, nlines, linelens, codes) == life \in {"Start", "Diags"} /\ WellFormed(d, nlines, linelens, codes) /\ life' = "Diags" /\ ndiags' = ndiags + 1
+Diag(d, file, codes) == life \in {"Start", "Diags"} /\ WellFormed(d, file, codes) /\ life' = "Diags" /\ ndiags' = ndiags + 1
 End == life \in {"Start", "Diags"} /\ life' = "Done" /\ UNCHANGED ndiags
 \* sanity of the automaton itself (checked on the generator config): Done is only reached through End
 TypeOK == life \in {"Start", "Diags", "Done"} /\ ndiags \in Nat
+
+(***************************************************************************)
+(* Known deviations of the unchanged tree on the input side (internal_error *)
+(* diagnostics).  exc = the "Internal error: ..." line of the report ("" if *)
+(* the report was made directly), head = the first line of the message.     *)
+(***************************************************************************)
+\* signature.py:223 _VisitorBasedContext.on_error declares `detail: Optional[str] = ...` (the Ellipsis of the protocol stub
+\* instead of None): a callee evaluated at check time that raises inside an overloaded call hands Ellipsis to
+\* CanAssignError(...), whose display() then fails
+EllipsisExc == "Internal error: AttributeError(\"'ellipsis' object has no attribute 'splitlines'\")"
+Dev_EllipsisDetail(d) == d.code = "internal_error" /\ d.exc = EllipsisExc
+\* patma.py:194-199 reports a value pattern whose value is not a literal as internal_error
+Dev_MatchValueNotLiteral(f, d) == d.code = "internal_error" /\ d.exc = "" /\ f.kind = "match_value_dotted" /\ d.head = "Match value is not a literal"
+\* annotations.py:404-407 evaluates a plain string inside a PEP 585 alias (list["Rec"]) without the recursion guard that
+\* ForwardRef objects get (:503-513): a self-referential alias recurses until RecursionError
+\* suggested_type.py:230-231 get_shared_type calls t.mro() on every returned class object; for a metaclass (type itself,
+\* EnumMeta, ...) that is the unbound method: an unannotated function returning a class or a metaclass crashes
+MroExc == "Internal error: TypeError('unbound method type.mro() needs an argument')"
+Dev_SharedTypeOfMetaclass(d) == d.code = "internal_error" /\ d.exc = MroExc
+Dev_RecursiveStrAlias(f, d) == d.code = "internal_error" /\ f.kind = "recursive_str_alias" /\ d.exc = "Internal error: RecursionError('maximum recursion depth exceeded')"
 =============================================================================
